@@ -1,5 +1,6 @@
 """WASI binding: histories of calls -> (a) records for spec/WasiFs.tla, (b) script lines for bind/c/wasi_driver.c,
 and the comparison of the model's expected observation with what the real wasi.c did."""
+import errno as errno_mod
 import json
 import os
 import re
@@ -46,7 +47,9 @@ def model_call(c):
          "path2": c.get("path2", ""), "parent": c.get("parent", ""), "parent2": c.get("parent2", ""), "under": c.get("under", []),
          "slash": c.get("rawpath", "").endswith("/"), "slash2": c.get("rawpath2", "").endswith("/"),
          # the last component of the raw path is "." (c["path"] is then the directory it denotes)
-         "dot": bool(c.get("dot")), "dot2": bool(c.get("dot2"))}
+         "dot": bool(c.get("dot")), "dot2": bool(c.get("dot2")),
+         # host fault: name of the POSIX error that the host operation carrying out this call fails with ("" = none)
+         "fault": c.get("fault", "")}
     return m
 
 
@@ -115,6 +118,8 @@ def run_history(exe, calls, sandbox_root, hid, setup=(), argv=(), env=(), ls_aft
                 f.write(bytes(s["bytes"]))
     lines, index = [], []
     for j, c in enumerate(calls):
+        if c.get("fault"):
+            lines.append("inject %s %d" % (c["family"], getattr(errno_mod, c["fault"])))
         lines.append(script_line(c, sb))
         index.append(("call", j))
         if c["call"] in ls_after:
@@ -269,3 +274,132 @@ def model_histories(hists, wd, shards=None, timeout=1500):
         for x in recs:
             out[(x["id"], x["k"])] = x
     return out, {"states": sum(r["distinct"] for r, _ in res), "transitions": sum(r["generated"] for r, _ in res)}
+
+
+# ------------------------------------------------------------------ host faults (WasiFs.tla, CallWithFault)
+FAULT_WRAPS = ["open", "open64", "openat", "read", "readv", "pread", "preadv", "write", "writev", "pwrite", "pwritev", "lseek", "stat", "lstat", "fstat",
+               "fstatat", "fsync", "fdatasync", "mkdir", "mkdirat", "rmdir", "unlink", "unlinkat", "rename", "renameat", "symlink", "symlinkat",
+               "readlink", "readlinkat"]
+# errors POSIX lists for the host function(s) of each family (and that WASI enumerates)
+FAULT_ERRNOS = {
+    "open": "EACCES EEXIST EINTR EINVAL EIO EISDIR ELOOP EMFILE ENAMETOOLONG ENFILE ENOENT ENOSPC ENOTDIR ENXIO EOVERFLOW EROFS ETXTBSY EAGAIN ENOMEM EPERM EBUSY ENODEV EDQUOT",
+    "read": "EAGAIN EBADF EINTR EIO EISDIR ENXIO ENOMEM EOVERFLOW EINVAL ESPIPE ETIMEDOUT ENOBUFS",
+    "write": "EAGAIN EBADF EFBIG EINTR EIO ENOSPC EPIPE ENXIO EDQUOT EINVAL EPERM ERANGE",
+    "seek": "EBADF EINVAL EOVERFLOW ESPIPE ENXIO",
+    "stat": "EACCES EIO ELOOP ENAMETOOLONG ENOENT ENOTDIR EOVERFLOW EBADF ENOMEM",
+    "sync": "EBADF EINTR EINVAL EIO EROFS ENOSPC EDQUOT ESTALE ENOLCK EDEADLK ENOTSUP ENOSYS E2BIG ECHILD EDOM EFAULT ENOEXEC ENOTTY ESRCH EXDEV EMLINK",
+    "mkdir": "EACCES EEXIST ELOOP EMLINK ENAMETOOLONG ENOENT ENOSPC ENOTDIR EROFS EDQUOT EPERM",
+    "rmdir": "EACCES EBUSY EEXIST ENOTEMPTY EINVAL EIO ELOOP ENAMETOOLONG ENOENT ENOTDIR EPERM EROFS",
+    "unlink": "EACCES EBUSY ELOOP ENAMETOOLONG ENOENT ENOTDIR EPERM EROFS ETXTBSY EISDIR EIO",
+    "rename": "EACCES EBUSY EEXIST ENOTEMPTY EINVAL EIO EISDIR ELOOP EMLINK ENAMETOOLONG ENOENT ENOSPC ENOTDIR EPERM EROFS EXDEV",
+    "symlink": "EACCES EEXIST EIO ELOOP ENAMETOOLONG ENOENT ENOSPC ENOTDIR EROFS EDQUOT",
+    "readlink": "EACCES EINVAL EIO ELOOP ENAMETOOLONG ENOENT ENOTDIR",
+}
+FILE_FAULTS = [("open", "open"), ("read", "read"), ("pread", "read"), ("pread", "seek"), ("write", "write"), ("pwrite", "write"), ("pwrite", "seek"),
+               ("seek", "seek"), ("tell", "seek"), ("filestat", "stat"), ("sync", "sync"), ("datasync", "sync")]
+PATH_FAULTS = [("mkdir", "mkdir"), ("rmdir", "rmdir"), ("unlink", "unlink"), ("rename", "rename"), ("symlink", "symlink"), ("readlink", "readlink"),
+               ("pathstat", "stat")]
+
+
+def build_fault_driver(wd):
+    return build_driver(wd, name="wasidrv-fault",
+                        extra=("-DVERIF_FAULTS", "-U_FORTIFY_SOURCE", os.path.join(BINDC, "fault_wrap.c"), "-Wl," + ",".join("--wrap=" + f for f in FAULT_WRAPS)))
+
+
+def fault_history(rng, hid, kind, family, err):
+    """A short history that ends in one call the host lets down, followed by probes of what must not have changed:
+    the position of the descriptor, the next descriptor number, the files (listing)."""
+    abi = lambda: rng.choice("pu")
+    content = [rng.randrange(1, 256) for _ in range(rng.choice([6, 11, 40]))]
+    setup = [{"call": "mkdirs", "path": "d"}, {"call": "mkdirs", "path": "e"}, {"call": "mkfile", "path": "a", "bytes": content}, {"call": "mklink", "path": "l", "target": "a"}]
+    calls = [{"call": "open", "abi": abi(), "dirfd": 3, "path": "a", "parent": "", "oflags": 0, "rd": True, "wr": True, "app": False},
+             {"call": "seek", "abi": "p", "fd": 4, "delta": rng.choice([0, 1, 3, 5]), "whence": 0}]
+    if rng.random() < 0.5:
+        calls.append({"call": "write", "abi": abi(), "fd": 4, "segs": [[rng.randrange(256) for _ in range(rng.choice([1, 2, 4]))]]})
+    f = {"abi": abi(), "fault": err, "family": family, "call": kind}
+    if kind == "open":
+        name = rng.choice(["a", "new"])
+        f.update({"dirfd": 3, "path": name, "parent": "", "oflags": 0 if name == "a" else rng.choice([1, 1 | 4]), "rd": True, "wr": rng.random() < 0.5, "app": False})
+    elif kind in ("read", "pread"):
+        f.update({"fd": 4, "lens": [rng.choice([1, 2, 4])] * rng.choice([1, 2]), "offset": rng.choice([0, 1, 2])})
+    elif kind in ("write", "pwrite"):
+        f.update({"fd": 4, "segs": [[rng.randrange(256) for _ in range(rng.choice([1, 3]))] for _ in range(rng.choice([1, 2]))], "offset": rng.choice([0, 1, 7])})
+    elif kind == "seek":
+        f.update({"fd": 4, "delta": rng.choice([0, 2, 4]), "whence": rng.choice([0, 1, 2])})
+    elif kind in ("tell", "filestat", "sync", "datasync"):
+        f.update({"fd": 4})
+    elif kind == "mkdir":
+        f.update({"dirfd": 3, "path": "n", "parent": ""})
+    elif kind == "rmdir":
+        f.update({"dirfd": 3, "path": "e", "parent": ""})
+    elif kind == "unlink":
+        f.update({"dirfd": 3, "path": "a", "parent": ""})
+    elif kind == "rename":
+        f.update({"dirfd": 3, "fd": 3, "path": "a", "path2": "z", "parent": "", "parent2": ""})
+    elif kind == "symlink":
+        f.update({"dirfd": 3, "path": "s", "parent": "", "target": "a"})
+    elif kind == "readlink":
+        f.update({"dirfd": 3, "path": "l", "parent": "", "buflen": 64, "target": "a"})
+    elif kind == "pathstat":
+        f.update({"dirfd": 3, "path": "a", "parent": ""})
+    calls.append(f)
+    calls += [{"call": "tell", "abi": "p", "fd": 4},
+              {"call": "open", "abi": abi(), "dirfd": 3, "path": "fresh", "parent": "", "oflags": 1, "rd": True, "wr": True, "app": False},
+              {"call": "read", "abi": abi(), "fd": 4, "lens": [3]}]
+    return {"id": "f%d" % hid, "setup": setup, "calls": calls}
+
+
+def fault_histories(rng, pairs, per_pair):
+    hists = []
+    for kind, family in pairs:
+        errs = FAULT_ERRNOS[family].split()
+        rng.shuffle(errs)
+        for e in (errs if per_pair is None else errs[:per_pair]):
+            if hasattr(errno_mod, e):
+                hists.append(fault_history(rng, len(hists), kind, family, e))
+    return hists
+
+
+def run_fault_histories(v, hists, wd, sigprefix):
+    """Returns statistics.  A faulted call whose fault never fired (the implementation reaches the host another way) is not
+    judged, and neither is the rest of that history."""
+    exp, st = model_histories(hists, wd)
+    exe = build_fault_driver(wd)
+    mutating = ("open", "write", "pwrite", "unlink", "rename", "mkdir", "rmdir", "symlink")
+
+    def one(h):
+        return run_history(exe, h["calls"], wd, h["id"], setup=h["setup"], ls_after=mutating)
+    compared = fired = notfired = 0
+    seen = set()
+    for h, (recs, index, err, rc, sb) in zip(hists, pmap(one, hists)):
+        ns = len(h["setup"])
+        by_i = {r["i"]: r for r in recs if "i" in r}
+        for line_no, (kind, j) in enumerate(index, start=1):
+            c = h["calls"][j]
+            m = exp[(h["id"], ns + j + 1)]
+            a = by_i.get(line_no)
+            if a is None:
+                v.deviation(asan_sig(err) or "crash:%s" % c["call"], {"history": h["id"], "call": c, "rc": rc, "stderr": err[-1200:]})
+                break
+            if m["errno"] == 999:
+                break
+            if c.get("fault") and kind == "call":
+                if not a.get("fired"):
+                    notfired += 1
+                    break
+                fired += 1
+                seen.add((c["call"], c["family"], c["fault"]))
+            why = compare_call(c, m, a, sb) if kind == "call" else compare_ls(m, a)
+            compared += 1
+            if why:
+                f = next(x for x in h["calls"] if x.get("fault"))
+                where = "fault" if c.get("fault") else "after-fault"
+                v.deviation("%s:%s:%s:%s" % (sigprefix, f["call"], where, f["fault"] if (c.get("fault") and why.startswith("errno")) else why.split(":")[0][:24]),
+                            {"history": h["id"], "faulted_call": f, "host_function_family": f["family"], "host_errno": f["fault"], "at": c["call"], "why": why,
+                             "calls": [x["call"] for x in h["calls"]]})
+                break
+        else:
+            if rc != 0:
+                v.deviation(asan_sig(err) or "exit-status:%d" % rc, {"history": h["id"], "stderr": err[-800:]})
+    st.update({"compared": compared, "faults_fired": fired, "faults_not_reached": notfired, "distinct_faults": len(seen)})
+    return st, exp
